@@ -124,6 +124,7 @@ type Hist struct {
 	ServerClosedAtQ  bool // ... by the first quiescence point after the call (before any stalled reader was resumed)
 	LeftAfterClients []simrt.TaskInfo
 	LeftSubs         []LeftSub // subscriptions the topic tree still holds after every connection has ended
+	SessionsLeft     int       // sessions in the store after every connection has ended (-1: not probed)
 	LeftAtEnd        []simrt.TaskInfo
 	HeldAtEnd        []string
 	ServeErr         string
@@ -920,6 +921,11 @@ func (r *run) director() {
 	if !sc.Knobs.CloseServer {
 		// every connection has ended: what does the topic tree still hold for
 		// a topic matching each filter the script subscribed to?
+		if n, err := r.srv.VerifSessions(); err == nil {
+			h.SessionsLeft = n
+		} else {
+			h.SessionsLeft = -1
+		}
 		seen := map[string]bool{}
 		for _, cl := range sc.Clients {
 			for _, op := range cl.Ops {
